@@ -417,7 +417,8 @@ class Recorder:
 
     @pytest.hookimpl
     def pytest_handlecrashitem(self, crashitem: str, report: Any, sched: Any) -> None:
-        self.sim.crashitems.append((crashitem, report.node.gateway.id))
+        node = getattr(report, "node", None)       # the harness must not fall over where a consumer of the report would
+        self.sim.crashitems.append((crashitem, node.gateway.id if node is not None else None))
         left = self.sim.requeue_left.get(crashitem, 0)
         self.sim._crash_requeued = left > 0
         if left > 0:
